@@ -226,6 +226,7 @@ static void c04_evaluation_length() {
   n++; prev_cost = eval_cost;
   if (n > allowed + 1000) { c04_reported = 0; c04_report("evaluation", n, allowed); ev("HANG evaluation"); ev_flush(); _exit(75); }
 }
+static svalue_t *stackroom_saved = nullptr;
 static void instr_hook(int instruction) {
   (void)instruction;
   S.instr_total++;
@@ -249,6 +250,15 @@ static void instr_hook(int instruction) {
       S.faults_fired++;
       ev("fault_fired instr=%ld prog=%s kind=%s", S.instr_total, current_prog && current_prog->name ? current_prog->name : "?", S.fault_kind.c_str());
       if (S.fault_kind == "evalcost") { eval_cost = 1; return; }
+      if (!S.fault_kind.compare(0, 10, "stackroom:")) {
+        // from here on the value stack has only this many free slots, as if the evaluation had started that much deeper:
+        // the next push beyond them raises the driver's own "Stack overflow" at whatever site makes it.  Undone at the
+        // next cycle boundary.
+        long room = atol(S.fault_kind.c_str() + 10);
+        if (!stackroom_saved) stackroom_saved = end_of_stack;
+        if (sp + room < end_of_stack) end_of_stack = sp + room;
+        return;
+      }
       error("*verif injected fault\n");
     }
   }
@@ -378,6 +388,7 @@ static void sim_memstat() {
 void dump_users(const char *when);
 static long dump_users_every = 0;
 void invariants_at_cycle() {
+  if (stackroom_saved) { end_of_stack = stackroom_saved; stackroom_saved = nullptr; }
   if (c08_walk_on && have_entry_any()) c08_walk();
   if (dump_users_every && have_entry) dump_users("cycle");
   if (!have_entry) { sp0 = sp; csp0 = csp; }
